@@ -12,6 +12,21 @@ BUFFERING = {"next", "prev", "linear", "step", "avg", "sum"}
 DELAYS = {"delay_fixed", "delay_pull", "delay_push"}
 
 
+# unit catalogue for link traffic: (factor to SI of its dimension, offset in SI)
+UNIT_TABLE = {"": (1.0, 0.0), "m": (1.0, 0.0), "km": (1000.0, 0.0), "mm": (0.001, 0.0), "cm": (0.01, 0.0),
+              "s": (1.0, 0.0), "m/s": (1.0, 0.0), "mm/d": (0.001 / 86400.0, 0.0), "m s": (1.0, 0.0),
+              "mm s": (0.001, 0.0), "K": (1.0, 0.0), "degC": (1.0, 273.15)}
+
+
+def convert(v, u_from, u_to):
+    """magnitude of v [u_from] expressed in u_to (independent table, no pint)"""
+    if u_to is None or u_from == u_to:
+        return v
+    f1, o1 = UNIT_TABLE[u_from]
+    f2, o2 = UNIT_TABLE[u_to]
+    return (v * f1 + o1 - o2) / f2
+
+
 class ModelRefuse(Exception):
     """The ideal link refuses the request (time error expected)."""
 
@@ -369,6 +384,28 @@ class E1Model:
         # pull-based source: info time comes from the consumer side
         init = self.t0      # pull-based stubs declare the composition start on their slots
         o = src["outputs"][soi]
+        if src["kind"] == "wsum":
+            init = self._wsum_init(sci)
+
+            def evw(t, sci=sci):
+                names = [i["name"] for i in src["inputs"]]
+                u0 = self._in_units(sci, 0)
+                terms, pending = [], None
+                for k in range(0, len(names), 2):
+                    pair = []
+                    for ii in (k, k + 1):
+                        l2 = self.links[(sci, ii)]
+                        try:
+                            pair.append(self.lm[l2].pull_initial(t) if self.initial_mode else self.lm[l2].pull(t))
+                        except (Unknown, ModelRefuse) as e:
+                            pending = pending or e
+                    if pending is None:
+                        uk = self._in_units(sci, k)
+                        terms.append(tuple(convert(a, uk, u0) * w for a, w in product(*pair)))
+                if pending is not None:
+                    raise pending
+                return _cap(tuple(sum(x) for x in product(*terms)))
+            return LinkModel(ln["chain"], init, source_eval=evw)
 
         def ev(t, sci=sci, o=o):
             alts = [(float(o["base"]),)]
@@ -385,6 +422,17 @@ class E1Model:
                 raise pending
             return _cap(tuple(sum(x) for x in product(*alts)))
         return LinkModel(ln["chain"], init, source_eval=ev)
+
+    def _in_units(self, ci, ii):
+        """units delivered to input ii of component ci (source units; chains here are unit preserving)"""
+        ln = self.sc["links"][self.links[(ci, ii)]]
+        s = self.sc["components"][ln["src"][0]]
+        return s["outputs"][ln["src"][1]].get("units", "")
+
+    def _wsum_init(self, ci):
+        ln = self.sc["links"][self.links[(ci, 0)]]
+        s = self.sc["components"][ln["src"][0]]
+        return s["start"] if s["kind"] == "sim" else self.t0
 
     def _consumer_start(self, li):
         ln = self.sc["links"][li]
@@ -405,10 +453,20 @@ class E1Model:
         if initial:
             self.initial_mode = True
             try:
-                return self.lm[li].pull_initial(t)
+                vals = self.lm[li].pull_initial(t)
             finally:
                 self.initial_mode = False
-        return self.lm[li].pull(t)
+        else:
+            vals = self.lm[li].pull(t)
+        # unit conversion at the receiving input (unit preserving chains only)
+        cu = self.sc["components"][ci]["inputs"][ii].get("units")
+        if cu:
+            ln = self.sc["links"][li]
+            s = self.sc["components"][ln["src"][0]]
+            su = self._in_units(ln["src"][0], 0) if s["kind"] == "wsum" else s["outputs"][ln["src"][1]].get("units", "")
+            if su != cu:
+                vals = tuple(convert(x, su, cu) for x in vals)
+        return vals
 
     def required(self, ci, ii, t, seen=None):
         """set of (src comp, src output, required tick) among sim components"""
